@@ -263,7 +263,7 @@ Section Proofs.
     - (* send *)
       destruct (retx (ch s) fwd rev) as [l|] eqn:E.
       + destruct (retx_props _ _ _ _ E) as (E1 & E2 & _ & F1 & F2).
-        constructor; cbn; auto.
+        constructor; cbn [ch rread lim_s lim_c car_s car_c]; auto.
         * unfold pos in *. cbn. rewrite E1. exact L.
         * destruct (fwd && rev) eqn:B; [|apply F2; auto].
           apply F1; auto. destruct fwd; [reflexivity|discriminate].
@@ -272,7 +272,7 @@ Section Proofs.
         apply andb_true_iff in C. destruct C as [C _]. unfold credit_ok in C.
         apply andb_true_iff in C. destruct C as [C _]. apply andb_true_iff in C. destruct C as [C _].
         apply N.ltb_lt in C.
-        constructor; cbn; auto.
+        constructor; cbn [ch rread lim_s lim_c car_s car_c]; auto.
         * unfold pos in *. cbn. rewrite app_length. cbn. lia.
         * unfold acked_recv. apply Forall_app. split; [exact A|]. constructor; [|constructor].
           cbn. destruct fwd, rev; cbn; auto; discriminate.
@@ -280,8 +280,9 @@ Section Proofs.
     - (* sender pto *)
       destruct (0 <? cnt is_cinflight (ch s))%nat; [|exact H].
       destruct (pto_data_props (ch s)) as (P1 & P2 & _ & _ & P5).
-      constructor; cbn; auto.
+      constructor; cbn [ch rread lim_s lim_c car_s car_c]; auto.
       + unfold pos in *. cbn. rewrite P1. exact L.
+      + apply P5. exact A.
       + rewrite P2. exact R.
     - (* read *)
       destruct (rread s <? N.of_nat (prefix_len (ch s))) eqn:C; [|exact H].
@@ -289,14 +290,12 @@ Section Proofs.
       set (r' := N.of_nat (prefix_len (ch s))) in *.
       destruct (update_spec (car_s s) (r' - rread s) IS NS) as (U1 & U2 & U3 & U4 & U5); [lia|].
       destruct (update_spec (car_c s) (r' - rread s) IC NC) as (V1 & V2 & V3 & V4 & V5); [lia|].
-      constructor; cbn; auto; try lia.
-      + fold r'. lia.
-      + congruence.
-      + congruence.
+      constructor; cbn [ch rread lim_s lim_c car_s car_c]; auto; try lia.
+      all: try (fold r'; lia); try congruence.
     - (* rx stream carrier *)
       rewrite carrier_tx_spec. destruct (wants (car_s s)) eqn:W; [|exact H].
       pose proof (carrier_after_tx_inv (car_s s) fwd rev IS W) as Hi.
-      constructor; cbn; auto.
+      constructor; cbn [ch rread lim_s lim_c car_s car_c]; auto.
       + destruct (fwd && rev); cbn; reflexivity.
       + destruct (fwd && rev); cbn; exact LS.
       + destruct (fwd && rev) eqn:B; cbn.
@@ -306,7 +305,7 @@ Section Proofs.
     - (* rx connection carrier *)
       rewrite carrier_tx_spec. destruct (wants (car_c s)) eqn:W; [|exact H].
       pose proof (carrier_after_tx_inv (car_c s) fwd rev IC W) as Hi.
-      constructor; cbn; auto.
+      constructor; cbn [ch rread lim_s lim_c car_s car_c]; auto.
       + destruct (fwd && rev); cbn; reflexivity.
       + destruct (fwd && rev); cbn; exact LC.
       + destruct (fwd && rev) eqn:B; cbn.
@@ -316,7 +315,7 @@ Section Proofs.
     - (* receiver pto *)
       destruct (is_inflight (idel (car_s s)) || is_inflight (idel (car_c s))); [|exact H].
       rewrite !carrier_lose_spec.
-      constructor; cbn; auto.
+      constructor; cbn [ch rread lim_s lim_c car_s car_c]; auto.
       + destruct (is_inflight (idel (car_s s))) eqn:F; [|exact IS].
         destruct (inflight_inv _ IS F) as (_ & _ & Hlt). destruct IS as (I1 & I2 & _).
         unfold iinv. cbn. lia.
@@ -332,4 +331,340 @@ Section Proofs.
       + destruct (is_inflight (idel (car_s s))); [cbn|]; exact TS.
       + destruct (is_inflight (idel (car_c s))); [cbn|]; exact TC.
   Qed.
+
+  (* ---------------------------------------------------------------- the measure *)
+
+  Definition b2n (b : bool) : nat := if b then 1%nat else 0%nat.
+
+  (* (unacknowledged chunks, missing credit, unread chunks, frames in flight, pending transmissions) *)
+  Definition mu (s : st) : meas :=
+    ((N.to_nat n - length (ch s)) + cnt is_unacked (ch s),
+     (N.to_nat (n - N.min n (lim_s s)) + N.to_nat (n - N.min n (lim_c s)),
+      (N.to_nat (n - rread s),
+       (cnt is_cinflight (ch s) + b2n (is_inflight (idel (car_s s))) + b2n (is_inflight (idel (car_c s))),
+        cnt is_clost (ch s) + b2n (wants (car_s s)) + b2n (wants (car_c s))))))%nat.
+
+  Definition tt2 : bool * bool := (true, true).
+
+  Ltac at1 := left; cbn [fst snd].
+  Ltac at2 := right; split; [cbn [fst snd]|left; cbn [fst snd]].
+  Ltac at3 := right; split; [cbn [fst snd]|right; split; [cbn [fst snd]|left; cbn [fst snd]]].
+  Ltac at4 := right; split; [cbn [fst snd]|right; split; [cbn [fst snd]|right; split; [cbn [fst snd]|left; cbn [fst snd]]]].
+  Ltac at5 := right; split; [cbn [fst snd]|right; split; [cbn [fst snd]|right; split; [cbn [fst snd]|right; split; cbn [fst snd]]]].
+
+  Lemma dec_send_retx : forall m s, Inv s -> (0 < cnt is_clost (ch s))%nat ->
+    mlt (mu (step m tt2 ASend s)) (mu s).
+  Proof.
+    intros m s H Hl. unfold Liveness.step, tt2. cbn [fst snd].
+    destruct (retx (ch s) true true) as [l|] eqn:E.
+    - destruct (retx_props _ _ _ _ E) as (E1 & _ & E3 & _). cbn [andb] in E3.
+      unfold mlt, mu. cbn [ch rread lim_s lim_c car_s car_c]. at1. rewrite E1. lia.
+    - apply retx_none in E. lia.
+  Qed.
+
+  Lemma dec_send_new : forall s, Inv s -> cnt is_clost (ch s) = O -> credit_ok n s = true ->
+    mlt (mu (step false tt2 ASend s)) (mu s).
+  Proof.
+    intros s H Hl C. unfold Liveness.step, tt2. cbn [fst snd].
+    destruct (retx (ch s) true true) as [l|] eqn:E.
+    - assert (retx (ch s) true true = None) by (apply retx_none; exact Hl). congruence.
+    - rewrite C. cbn [andb negb].
+      unfold credit_ok in C. apply andb_true_iff in C. destruct C as [C _].
+      apply andb_true_iff in C. destruct C as [C _]. apply N.ltb_lt in C. unfold Liveness.pos in C.
+      unfold mlt, mu. cbn [ch rread lim_s lim_c car_s car_c]. at1.
+      rewrite app_length, cnt_app. cbn. lia.
+  Qed.
+
+  Lemma dec_pto : forall m s, Inv s -> (0 < cnt is_cinflight (ch s))%nat ->
+    mlt (mu (step m tt2 ASendPto s)) (mu s).
+  Proof.
+    intros m s H Hl. unfold Liveness.step.
+    destruct (Nat.ltb_spec 0 (cnt is_cinflight (ch s))); [|lia].
+    destruct (pto_data_props (ch s)) as (P1 & P2 & P3 & P4 & _).
+    unfold mlt, mu. cbn [ch rread lim_s lim_c car_s car_c]. at4; try reflexivity.
+    - rewrite P1, P3. reflexivity.
+    - rewrite P4. lia.
+  Qed.
+
+  Lemma dec_read : forall m s, Inv s -> rread s < N.of_nat (prefix_len (ch s)) ->
+    mlt (mu (step m tt2 ARead s)) (mu s).
+  Proof.
+    intros m s H Hl. unfold Liveness.step.
+    pose proof (read_le_n s H) as Hn.
+    destruct (N.ltb_spec (rread s) (N.of_nat (prefix_len (ch s)))); [|lia].
+    unfold mlt, mu. cbn [ch rread lim_s lim_c car_s car_c]. at3; try reflexivity. lia.
+  Qed.
+
+  Lemma dec_rxs : forall m s, Inv s -> wants (car_s s) = true ->
+    mlt (mu (step m tt2 ARxS s)) (mu s).
+  Proof.
+    intros m s H W. unfold Liveness.step, tt2. cbn [fst snd]. rewrite carrier_tx_spec, W. cbn [andb].
+    destruct (wants_inv _ (inv_is s H) W) as (F & _ & _).
+    unfold mlt, mu. cbn [ch rread lim_s lim_c car_s car_c idel is_inflight]. unfold wants at 1. cbn [idel].
+    rewrite F, W.
+    destruct (Nat.eq_dec (N.to_nat (n - N.min n (N.max (lim_s s) (latest (car_s s)))))
+                         (N.to_nat (n - N.min n (lim_s s)))) as [Eq|Ne].
+    - at5; try reflexivity; try lia. cbn [b2n]. lia.
+    - at2; try reflexivity. lia.
+  Qed.
+
+  Lemma dec_rxc : forall m s, Inv s -> wants (car_c s) = true ->
+    mlt (mu (step m tt2 ARxC s)) (mu s).
+  Proof.
+    intros m s H W. unfold Liveness.step, tt2. cbn [fst snd]. rewrite carrier_tx_spec, W. cbn [andb].
+    destruct (wants_inv _ (inv_ic s H) W) as (F & _ & _).
+    unfold mlt, mu. cbn [ch rread lim_s lim_c car_s car_c idel is_inflight]. unfold wants at 2. cbn [idel].
+    rewrite F, W.
+    destruct (Nat.eq_dec (N.to_nat (n - N.min n (N.max (lim_c s) (latest (car_c s)))))
+                         (N.to_nat (n - N.min n (lim_c s)))) as [Eq|Ne].
+    - at5; try reflexivity; try lia. cbn [b2n]. lia.
+    - at2; try reflexivity. lia.
+  Qed.
+
+  Lemma dec_rxpto : forall m s, Inv s ->
+    is_inflight (idel (car_s s)) || is_inflight (idel (car_c s)) = true ->
+    mlt (mu (step m tt2 ARxPto s)) (mu s).
+  Proof.
+    intros m s H W. unfold Liveness.step. rewrite W, !carrier_lose_spec.
+    unfold mlt, mu. cbn [ch rread lim_s lim_c car_s car_c]. at4; try reflexivity.
+    destruct (is_inflight (idel (car_s s))) eqn:F1, (is_inflight (idel (car_c s))) eqn:F2;
+      cbn [idel is_inflight b2n] in *; try discriminate; rewrite ?F1, ?F2; cbn [b2n]; lia.
+  Qed.
+
+  (* every step under a faithful network is a stutter or strictly decreases the measure *)
+  Lemma step_dichotomy : forall m a s, Inv s ->
+    step m tt2 a s = s \/ mlt (mu (step m tt2 a s)) (mu s).
+  Proof.
+    intros m a s H. destruct a.
+    - destruct (Nat.eq_dec (cnt is_clost (ch s)) 0) as [E|E].
+      + destruct m.
+        * left. unfold Liveness.step, tt2. cbn [fst snd].
+          apply (retx_none _ true true) in E. rewrite E. rewrite andb_false_r. reflexivity.
+        * destruct (credit_ok n s) eqn:C.
+          -- right. apply dec_send_new; auto.
+          -- left. unfold Liveness.step, tt2. cbn [fst snd].
+             apply (retx_none _ true true) in E. rewrite E, C. reflexivity.
+      + right. apply dec_send_retx; auto. lia.
+    - destruct (Nat.eq_dec (cnt is_cinflight (ch s)) 0) as [E|E].
+      + left. unfold Liveness.step. rewrite E. reflexivity.
+      + right. apply dec_pto; auto. lia.
+    - destruct (N.ltb_spec (rread s) (N.of_nat (prefix_len (ch s)))) as [L|L].
+      + right. apply dec_read; auto.
+      + left. unfold Liveness.step. apply N.ltb_ge in L. rewrite L. reflexivity.
+    - destruct (wants (car_s s)) eqn:W.
+      + right. apply dec_rxs; auto.
+      + left. unfold Liveness.step. rewrite carrier_tx_spec, W. reflexivity.
+    - destruct (wants (car_c s)) eqn:W.
+      + right. apply dec_rxc; auto.
+      + left. unfold Liveness.step. rewrite carrier_tx_spec, W. reflexivity.
+    - destruct (is_inflight (idel (car_s s)) || is_inflight (idel (car_c s))) eqn:W.
+      + right. apply dec_rxpto; auto.
+      + left. unfold Liveness.step. rewrite W. reflexivity.
+  Qed.
+
+  (* ---------------------------------------------------------------- some action always helps *)
+
+  Lemma carrier_must_move : forall c w,
+    iinv c -> is_cancelled (idel c) = false -> ackd c + w <= latest c -> 1 <= w -> thr c <= w ->
+    wants c = true \/ is_inflight (idel c) = true.
+  Proof.
+    intros [l a t d pn] w (H1 & H2 & H3) Hc Hw H1w Ht. unfold wants. cbn in *.
+    destruct d; auto; try discriminate; try contradiction.
+    exfalso. unfold needs in H3. apply andb_false_iff in H3. destruct H3 as [H3|H3].
+    - apply negb_false_iff in H3. apply N.eqb_eq in H3. lia.
+    - apply N.leb_gt in H3. lia.
+  Qed.
+
+  Definition helps (a : action) (s : st) : Prop :=
+    forall m, (credit_ok n s = true -> m = false) -> mlt (mu (step m tt2 a s)) (mu s).
+
+  Lemma complete_dec : forall s, {complete n s} + {~ complete n s}.
+  Proof.
+    intros s. unfold complete.
+    destruct (N.eq_dec (pos s) n); [|right; tauto].
+    destruct (Nat.eq_dec (cnt is_unacked (ch s)) 0); [|right; tauto].
+    destruct (N.eq_dec (rread s) n); [left; tauto|right; tauto].
+  Qed.
+
+  Lemma some_action_helps : forall s, Inv s -> ~ complete n s -> exists a, helps a s.
+  Proof.
+    intros s H Hnc. pose proof H as [L A R IS IC NS NC LS LC AS AC TS TC].
+    destruct (Nat.eq_dec (cnt is_clost (ch s)) 0) as [El|El];
+      [|exists ASend; intros m _; apply dec_send_retx; auto; lia].
+    destruct (Nat.eq_dec (cnt is_cinflight (ch s)) 0) as [Ei|Ei];
+      [|exists ASendPto; intros m _; apply dec_pto; auto; lia].
+    assert (Eu : cnt is_unacked (ch s) = O) by (rewrite unacked_split; lia).
+    pose proof (prefix_all _ Eu A) as Ep.
+    destruct (N.ltb_spec (rread s) (N.of_nat (prefix_len (ch s)))) as [Hr|Hr];
+      [exists ARead; intros m _; apply dec_read; auto|].
+    assert (Er : rread s = pos s) by (unfold Liveness.pos in *; lia).
+    destruct (N.ltb_spec (pos s) n) as [Hp|Hp].
+    - destruct (credit_ok n s) eqn:C.
+      + exists ASend. intros m Hm. rewrite (Hm C). apply dec_send_new; auto.
+      + unfold credit_ok in C. apply N.ltb_lt in Hp. rewrite Hp in C. cbn [andb] in C.
+        apply andb_false_iff in C. destruct C as [C|C]; apply N.ltb_ge in C.
+        * destruct (carrier_must_move (car_s s) ws IS NS) as [W|F]; try lia.
+          -- exists ARxS. intros m _. apply dec_rxs; auto.
+          -- exists ARxPto. intros m _. apply dec_rxpto; auto. rewrite F. reflexivity.
+        * destruct (carrier_must_move (car_c s) wc IC NC) as [W|F]; try lia.
+          -- exists ARxC. intros m _. apply dec_rxc; auto.
+          -- exists ARxPto. intros m _. apply dec_rxpto; auto. rewrite F. apply orb_true_r.
+    - exfalso. apply Hnc. unfold complete. repeat split; auto; lia.
+  Qed.
+
+  (* ---------------------------------------------------------------- schedules *)
+
+  Variable sched : nat -> action.
+  Variable net : nat -> bool * bool.
+  Variable mask : nat -> bool.
+
+  Notation run := (Liveness.run n ws wc ths thc sched net mask).
+
+  (* fairness: every kind of action (transmit opportunity of each endpoint / carrier, timer expiry,
+     application task) recurs; an action that is not enabled is a no-op *)
+  Definition fair : Prop := forall a k, exists k', (k <= k')%nat /\ sched k' = a.
+  (* the network: an arbitrary fault prefix of finite length, then every packet and acknowledgement
+     gets through *)
+  Definition finite_faults : Prop := exists F, forall k, (F <= k)%nat -> net k = (true, true).
+  (* the sender's flow controller does not report "blocked" while stream and connection credit for
+     the next chunk are available *)
+  Definition interest_reported : Prop := forall k, credit_ok n (run k) = true -> mask k = false.
+
+  Lemma inv_run : forall k, Inv (run k).
+  Proof. induction k; cbn [Liveness.run]; [apply inv_init|apply inv_step; exact IHk]. Qed.
+
+  Lemma progress : forall F, (forall k, (F <= k)%nat -> net k = (true, true)) -> interest_reported ->
+    forall j k a, (F <= k)%nat -> sched (k + j) = a -> helps a (run k) ->
+    exists k', (k < k')%nat /\ mlt (mu (run k')) (mu (run k)).
+  Proof.
+    intros F HF HM. induction j as [|j IH]; intros k a Hk Hs Hh.
+    - exists (S k). split; [lia|]. cbn [Liveness.run]. rewrite Nat.add_0_r in Hs.
+      rewrite Hs, (HF k Hk). apply Hh. apply HM.
+    - destruct (step_dichotomy (mask k) (sched k) (run k) (inv_run k)) as [E|D].
+      + assert (E' : run (S k) = run k) by (cbn [Liveness.run]; rewrite (HF k Hk); exact E).
+        destruct (IH (S k) a) as (k' & Hk' & Hlt).
+        * lia.
+        * rewrite <- Hs. f_equal. lia.
+        * rewrite E'. exact Hh.
+        * exists k'. split; [lia|]. rewrite E' in Hlt. exact Hlt.
+      + exists (S k). split; [lia|]. cbn [Liveness.run]. rewrite (HF k Hk). exact D.
+  Qed.
+
+  (* eventual_delivery: whatever the finite fault prefix, under a fair scheduler and a sender whose
+     transmission interest is not masked while credit is available, after some number of steps every
+     chunk of the finished stream has been transmitted, acknowledged at the sender, and read by the
+     receiving application. *)
+  Theorem eventual_delivery : fair -> finite_faults -> interest_reported ->
+    exists k, complete n (run k).
+  Proof.
+    intros Hfair [F HF] HM.
+    assert (G : forall x : meas, forall k, (F <= k)%nat -> mu (run k) = x -> exists k', complete n (run k')).
+    { intros x. induction (wf_mlt x) as [x _ IH]. intros k Hk Hx.
+      destruct (complete_dec (run k)) as [C|C]; [exists k; exact C|].
+      destruct (some_action_helps (run k) (inv_run k) C) as (a & Ha).
+      destruct (Hfair a k) as (k1 & Hk1 & Hs).
+      destruct (progress F HF HM (k1 - k) k a Hk) as (k' & Hk' & Hlt).
+      - rewrite <- Hs. f_equal. lia.
+      - exact Ha.
+      - apply (IH (mu (run k'))) with (k := k'); [rewrite <- Hx; exact Hlt|lia|reflexivity]. }
+    apply (G (mu (run F)) F); [lia|reflexivity].
+  Qed.
+
+  (* what "complete" means, with the invariant: all n chunks transmitted, each acknowledged at the
+     sender and received by the peer, and the application has read all n (the last carries the FIN) *)
+  Theorem complete_meaning : forall k, complete n (run k) ->
+    N.of_nat (length (ch (run k))) = n /\
+    Forall (fun x => x = (CAcked, true)) (ch (run k)) /\
+    rread (run k) = n /\ N.of_nat (prefix_len (ch (run k))) = n.
+  Proof.
+    intros k (C1 & C2 & C3). pose proof (inv_run k) as H.
+    pose proof (prefix_all _ C2 (inv_ack _ H)) as Ep.
+    unfold Liveness.pos in C1. repeat split; auto; [|lia].
+    pose proof (inv_ack _ H) as A. revert C2 A. generalize (ch (run k)).
+    induction l as [|[c r] t IHl]; intros C2 A; [constructor|].
+    rewrite cnt_cons in C2. inversion A; subst. cbn [fst snd] in *.
+    destruct c; cbn in C2; try lia. constructor; [rewrite (H2 eq_refl); reflexivity|].
+    apply IHl; auto.
+  Qed.
 End Proofs.
+
+(* ------------------------------------------------------------------ the hypotheses can be met *)
+
+Definition rr_actions : list action := [ASend; ASendPto; ARead; ARxS; ARxC; ARxPto].
+Definition rr_sched (k : nat) : action := nth (k mod 6) rr_actions ASend.
+(* 40 faulty steps: forward / reverse direction dropped in changing patterns, then faithful *)
+Definition ex_net (k : nat) : bool * bool :=
+  if (k <? 40)%nat then (Nat.eqb (k mod 2) 0, Nat.eqb (k mod 3) 0) else (true, true).
+Definition no_mask (k : nat) : bool := false.
+
+Lemma rr_fair : fair rr_sched.
+Proof.
+  intros a k.
+  assert (H : forall i, (i < 6)%nat -> ((6 * k + i) mod 6 = i)%nat).
+  { intros i Hi. rewrite Nat.add_comm, Nat.mul_comm, Nat.mod_add by lia. apply Nat.mod_small. exact Hi. }
+  destruct a;
+    [exists (6 * k + 0)%nat | exists (6 * k + 1)%nat | exists (6 * k + 2)%nat
+    | exists (6 * k + 3)%nat | exists (6 * k + 4)%nat | exists (6 * k + 5)%nat];
+    (split; [lia|]); unfold rr_sched; rewrite H by lia; reflexivity.
+Qed.
+
+Lemma ex_net_finite : finite_faults ex_net.
+Proof.
+  exists 40%nat. intros k Hk. unfold ex_net.
+  destruct (Nat.ltb_spec k 40); [lia|reflexivity].
+Qed.
+
+Lemma no_mask_reported : forall n ws wc ths thc sched net,
+  interest_reported n ws wc ths thc sched net no_mask.
+Proof. intros. intros k _. reflexivity. Qed.
+
+(* 5 chunks, stream window 1, connection window 2 (every kind of credit blocking occurs),
+   thresholds 1: the theorem applies, and this particular run is complete after 150 steps *)
+Example eventual_delivery_instance :
+  (exists k, complete 5 (run 5 1 2 1 1 rr_sched ex_net no_mask k)) /\
+  complete 5 (run 5 1 2 1 1 rr_sched ex_net no_mask 150).
+Proof.
+  split.
+  - apply eventual_delivery; try (unfold varint_max; lia).
+    + apply rr_fair.
+    + apply ex_net_finite.
+    + apply no_mask_reported.
+  - unfold complete. vm_compute. repeat split; reflexivity.
+Qed.
+
+(* ------------------------------------------------------------------ the premise and the real code *)
+
+(* [interest_reported] is a premise about the sender's flow controller.  For the StreamFlowController
+   of send_stream.rs (model/FlowSend.v, transcribed from acquire_flow_control_window /
+   set_max_stream_data / try_acquire_connection_window and compared with the real code by the C03
+   correspondence) it is FALSE: a stream blocked by both its stream window and the connection window
+   keeps reporting "blocked" after MAX_STREAM_DATA arrives, although stream and connection credit
+   for the next byte are then available.  (KNOWN_FINDINGS class
+   both_windows_blocked_state_masks_stream_credit.) *)
+From SQ Require model.FlowSend.
+
+(* stream window 1, connection window 50; the data sender asks for [0,150), sends byte 0,
+   then MAX_STREAM_DATA = 101 arrives *)
+Definition fc_after_max_stream_data : FlowSend.cfc * FlowSend.sfc :=
+  let '(c1, f1, _) := FlowSend.sfc_acquire (FlowSend.cfc_new 50) (FlowSend.sfc_new 1) 150 in
+  (c1, FlowSend.sfc_set_max_sd f1 101).
+
+(* the premise for this controller: next offset below the available window -> not blocked *)
+Definition fc_interest_reported (f : FlowSend.sfc) (next_offset : N) : Prop :=
+  next_offset < FlowSend.sfc_avail f -> FlowSend.sfc_is_blocked f = false.
+
+Lemma interest_reported_refuted :
+  let f := snd fc_after_max_stream_data in
+  FlowSend.sfc_avail f = 50 /\ FlowSend.f_st f = 2 /\ ~ fc_interest_reported f 1.
+Proof.
+  cbv zeta. split; [vm_compute; reflexivity|]. split; [vm_compute; reflexivity|].
+  unfold fc_interest_reported. intros H.
+  assert (E : FlowSend.sfc_is_blocked (snd fc_after_max_stream_data) = true) by (vm_compute; reflexivity).
+  rewrite H in E; [discriminate|]. vm_compute. reflexivity.
+Qed.
+
+(* the same history with only the stream window blocking does clear the state: the defect needs both *)
+Lemma stream_window_only_recovers :
+  let '(c1, f1, _) := FlowSend.sfc_acquire (FlowSend.cfc_new 500) (FlowSend.sfc_new 1) 150 in
+  FlowSend.sfc_is_blocked f1 = true /\ FlowSend.sfc_is_blocked (FlowSend.sfc_set_max_sd f1 101) = false.
+Proof. vm_compute. split; reflexivity. Qed.
